@@ -32,6 +32,9 @@ def run(ctx: Ctx):
     rules.rule_transition(ctx, "D1")
     ctx.attempt(rules.rule_enter_installs, ctx, "D1")
     ctx.attempt(rules.rule_acquire_effective, ctx, "D1")  # an instruction that 'succeeds' without taking the plug it names is neither all nor nothing
+    # "... enters the instructed activity with ALL of its side effects": what the previous activity's enter() took (plug, stall, queue slot,
+    # assignment) its exit() gives back on every success path, whichever activity comes next
+    ctx.attempt(rules.rule_pairing, ctx, {"plug", "stall", "queue", "assign"}, "D1", "D1")
     ai = repo.func(SSO, "apply_instructions")
     # the instruction path: everything apply_instructions can reach (every activity's enter / exit and their helpers)
     inst_roots = [ai] + [f for f in repo.all_funcs() if f.name == "apply_instruction"]
